@@ -368,10 +368,13 @@ def fam_resource(E, n, flavour, cancels=False):
                 cands = [u for u in self.users if self.better(i, u) and
                          not any(self.better(u, w) for w in self.users if w != u)]
                 if cands:
-                    nxt = [e for e in self.future if e[1] == 'preempted' and e[0] not in self.evicted]
+                    # the victim is the process that gets interrupted *by this request*
+                    nxt = [e for e in self.future if e[1] == 'preempted' and
+                           e[0] not in self.evicted and e[0] in causes and
+                           getattr(causes[e[0]], 'by', None) is procs[i]]
                     if E.prove(bool(nxt) and nxt[0][0] in cands, 'evicted-user-is-interrupted',
-                               ('request %r (priority %r) must evict one of %r; interrupted: %r',
-                                i, prio[i], cands, nxt and nxt[0][0])):
+                               ('request %r (priority %r) must evict one of %r; interrupted by '
+                                'it: %r', i, prio[i], cands, [e[0] for e in nxt])):
                         victim = nxt[0][0]
                         self.users.remove(victim)
                         self.evicted[victim] = (i, t)
@@ -449,7 +452,7 @@ FAMILIES = [
     Family('priority_store', fam_store, quick=dict(n=3, flavour=PRIORITY),
            thorough=dict(n=4, flavour=PRIORITY), reach=['item-delivered'], bounds='PriorityStore'),
     Family('filter_store', fam_store, quick=dict(n=3, flavour=FILTER, caps=(1, float('inf'))),
-           thorough=dict(n=4, flavour=FILTER),
+           thorough=dict(n=4, flavour=FILTER, caps=(1, float('inf')), _max_paths=900000, _max_wall=1200),
            reach=['item-delivered', 'blocked-filter-passed-over'], bounds='FilterStore'),
     Family('resource', fam_resource, quick=dict(n=3, flavour=FIFO), thorough=dict(n=4, flavour=FIFO),
            reach=['all-granted'], bounds='Resource'),
@@ -459,6 +462,6 @@ FAMILIES = [
     Family('priority_resource', fam_resource, quick=dict(n=3, flavour=PRIO),
            thorough=dict(n=4, flavour=PRIO), reach=['all-granted'], bounds='PriorityResource'),
     Family('preemptive_resource', fam_resource, quick=dict(n=3, flavour=PREEMPT),
-           thorough=dict(n=4, flavour=PREEMPT), reach=['preemption'],
+           thorough=dict(n=4, flavour=PREEMPT, _max_paths=1200000, _max_wall=1800), reach=['preemption'],
            bounds='PreemptiveResource'),
 ]
